@@ -234,7 +234,10 @@ def run_job(job, rec):
         before = guarded(readouts, ch, kind)
         st_before = state(ch, kind)
         path = os.path.join(tmpdir, f"s{c}.npz")
-        r = guarded(ch.save, path)
+        compressed = bool(kind == "hmc" and rng.random() < 0.4)   # the Hamiltonian chain offers a compressed file
+        if compressed:
+            rec.count("cases:compressed_file")
+        r = guarded(ch.save, path, compressed=True) if compressed else guarded(ch.save, path)
         if isinstance(r, Raised):
             rec.violation("save-raised", f"{kind}: save() after {n0} steps raised {r!r}", ctx)
             continue
